@@ -196,6 +196,9 @@ func runOp(op *casefmt.Op, st *opState) {
 	if op.Constants != nil {
 		opts = append(opts, genql.WithConstants(op.Constants))
 	}
+	if op.ConstShared {
+		opts = append(opts, genql.WithConstants(theCase.SharedConstants))
+	}
 	if !op.NoHandlers {
 		opts = append(opts, genql.UnReportedErrors(func(err error) {
 			noteReported(obs, errText(err))
